@@ -358,8 +358,7 @@ fn add_items_from_ast(ast: &Rc<FileAst>, output: &mut String) {
                         swrite!(output, "}};\n");
                     }
                     ImportKind::As(alias) => {
-                        // the generated code names types without their qualifier, so the
-                        // module's items are brought into scope as well as the alias
+                        // types of the module are named through the alias, as in the source
                         // (not `pub`: the crate root only sees the module through a private
                         // `use generated::*`, which cannot be re-exported under a new name)
                         swrite!(
@@ -367,11 +366,6 @@ fn add_items_from_ast(ast: &Rc<FileAst>, output: &mut String) {
                             "#[allow(unused_imports)]\nuse crate::{} as {};\n",
                             module_name,
                             alias.v
-                        );
-                        swrite!(
-                            output,
-                            "#[allow(unused_imports)]\npub use crate::{}::*;\n",
-                            module_name
                         );
                     }
                     // Rust cannot exclude names from a glob import. Importing the excluded ones as
